@@ -73,6 +73,42 @@ BUILTIN_EXC = {
 }
 
 
+_arith_cache = {}
+_feas_cache = {}
+
+
+def arith_only(t):
+    """No string/sequence/regex reasoning needed: only Length() of variables."""
+    key = t.get_id()
+    r = _arith_cache.get(key)
+    if r is not None:
+        return r
+    r = _arith(t)
+    _arith_cache[key] = r
+    return r
+
+
+def _arith(t):
+    if z3.is_quantifier(t):
+        return False
+    srt = t.sort()
+    k = srt.kind()
+    if k in (z3.Z3_SEQ_SORT, z3.Z3_RE_SORT):
+        return z3.is_const(t) and t.decl().kind() == z3.Z3_OP_UNINTERPRETED
+    if z3.is_app(t):
+        if t.decl().kind() == z3.Z3_OP_SEQ_LENGTH:
+            a = t.arg(0)
+            return z3.is_const(a) and a.decl().kind() == z3.Z3_OP_UNINTERPRETED
+        for a in t.children():
+            ak = a.sort().kind()
+            if ak in (z3.Z3_SEQ_SORT, z3.Z3_RE_SORT):
+                if t.decl().kind() != z3.Z3_OP_SEQ_LENGTH:
+                    return False
+            if not arith_only(a):
+                return False
+    return True
+
+
 class State:
     """Per-path mutable state."""
 
@@ -94,6 +130,7 @@ class Core:
     """Solver access + path bookkeeping shared by the executor."""
 
     FEAS_TIMEOUT_MS = 3000
+    FEAS_FULL_TIMEOUT_MS = 600
 
     def __init__(self):
         self.st = None
@@ -136,23 +173,46 @@ class Core:
         self.st.pc.append(c)
 
     def feasible(self, cond):
-        """True if pc & cond may be satisfiable (unknown counts as feasible)."""
+        """True if pc & cond may be satisfiable (unknown counts as feasible).
+        Two tiers: first only the arithmetic slice of the path condition (sound
+        for proving infeasibility, cheap), then the full condition under a short
+        budget."""
         import time
         c = z3.simplify(cond)
         if z3.is_true(c):
             return True
         if z3.is_false(c):
             return False
-        s = z3.Solver()
-        s.set('timeout', self.FEAS_TIMEOUT_MS)
-        for h in self.st.pc:
-            s.add(h)
-        s.add(c)
+        key = (tuple(h.get_id() for h in self.st.pc), c.get_id())
+        hit = _feas_cache.get(key)
+        if hit is not None:
+            return hit[0]
         t0 = time.time()
-        r = s.check()
-        self.solver_secs += time.time() - t0
         self.feas_calls += 1
-        return r != z3.unsat
+        r = self._feasible(c)
+        self.solver_secs += time.time() - t0
+        _feas_cache[key] = (r, list(self.st.pc), c)     # keep the ASTs alive (ids stay unique)
+        return r
+
+    def _feasible(self, c):
+        try:
+            cheap = [h for h in self.st.pc if arith_only(h)]
+            if len(cheap) < len(self.st.pc) and arith_only(c):
+                s = z3.Solver()
+                s.set('timeout', 1000)
+                for h in cheap:
+                    s.add(h)
+                s.add(c)
+                if s.check() == z3.unsat:
+                    return False
+            s = z3.Solver()
+            s.set('timeout', self.FEAS_TIMEOUT_MS if len(cheap) == len(self.st.pc) else self.FEAS_FULL_TIMEOUT_MS)
+            for h in self.st.pc:
+                s.add(h)
+            s.add(c)
+            return s.check() != z3.unsat
+        finally:
+            pass
 
     def choose(self, conds, labels=None):
         """Fork over mutually exclusive, jointly exhaustive conditions;
